@@ -1,0 +1,28 @@
+//go:build verif
+// +build verif
+
+package tso
+
+import "time"
+
+// VerifSnapshot returns (physical, logical, lastSaved) of an allocator under the TSO lock
+// (read-only verification hook, used for diagnostics in witnesses).
+func VerifSnapshot(a Allocator) (physical time.Time, logical int64, lastSaved time.Time, ok bool) {
+	var t *timestampOracle
+	switch x := a.(type) {
+	case *GlobalTSOAllocator:
+		t = x.timestampOracle
+	case *LocalTSOAllocator:
+		t = x.timestampOracle
+	}
+	if t == nil {
+		return
+	}
+	t.tsoMux.RLock()
+	physical, logical = t.tsoMux.physical, t.tsoMux.logical
+	t.tsoMux.RUnlock()
+	if v, isTime := t.lastSavedTime.Load().(time.Time); isTime {
+		lastSaved = v
+	}
+	return physical, logical, lastSaved, true
+}
